@@ -525,11 +525,19 @@ impl Area for A {
                             i = len; // after a withdrawal every role is DenyAll: little left to explore
                         }
                     }
-                    55..=62 => {
+                    55..=66 => {
                         // lock / proof / unlock fragment
                         let rec = mask_of_rule(rng, &g.cur[1].clone());
                         let prim = mask_of_rule(rng, &g.cur[0].clone());
                         g.call(rng, out, rec, M_LOCK, None);
+                        // while locked: whatever the primary role does on its own must not re-enable proofs
+                        if rng.chance(1, 2) {
+                            for _ in 0..(1 + rng.below(3)) {
+                                let m = *rng.pick(&[M_INIT_REC_P, M_CANCEL_P_REC, M_INIT_WD_P, M_CANCEL_P_WD]);
+                                g.call(rng, out, prim, m, None);
+                                i += 1;
+                            }
+                        }
                         let who = if rng.chance(4, 5) { prim } else { gen_mask(rng) };
                         g.call(rng, out, who, M_CREATE_PROOF, None);
                         if rng.chance(1, 2) {
